@@ -22,6 +22,7 @@ Published API (do not change signatures; C11/C15 import this):
                                     negative value that rounds to zero keeps its `-`, as Python)
   fmtFixed q w p                    `'{:w.pf}'.format(q)` (right-justified, never truncated)
   fmtInt i / fmtIntW w i            `'{:d}'`, `'{:wd}'`
+  fixedDigits p n                   `'{:0pd}'.format(n % 10^p)` (structurally recursive, proof friendly)
 
 The double nearest to a parsed rational is *not* modelled: the correspondence compares
 `float(text)` of the implementation with `float(Fraction)` of the model's exact value (both
@@ -132,6 +133,11 @@ def fmtFixedCore (q : Rat) (p : Nat) : Str :=
 
 /-- `'{:w.pf}'.format(q)` -/
 def fmtFixed (q : Rat) (w p : Nat) : Str := rjust w (fmtFixedCore q p)
+
+/-- exactly `p` digits of `n` (leading zeros; higher digits dropped): `'{:0pd}'.format(n % 10^p)` -/
+def fixedDigits : Nat → Nat → Str
+  | 0, _ => []
+  | p + 1, n => fixedDigits p (n / 10) ++ [digitChar n]
 
 def fmtInt (i : Int) : Str :=
   if i < 0 then '-' :: natDigits i.natAbs else natDigits i.natAbs
